@@ -39,3 +39,8 @@ package chaingersender
 //@   assert call:Pack arg1 == "insertGlobalExitRoot" && len(arg2) == 1 && typeIs(arg2[0], common.Hash) && unbox(arg2[0], common.Hash) == ger
 //@   assert call:Add arg1 != nil && *arg1 == c.l2GERManagerAddr && arg3 == updateGERTxInput
 //@   loop 0 invariant c != nil && c.ethTxMan != nil && c.logger != nil && ticker != nil
+// the wait for the injection goes on only while the transaction is undecided (C15, "keeps injecting": the oracle calls
+// InjectGER synchronously, so a wait that continues after the transaction was mined, made safe, finalized or failed
+// stops every later injection). Termination itself is not decided; what is proved is that no iteration that saw a
+// decided status goes round again.
+//@   loop 0 step res.Status != ethtxtypes.MonitoredTxStatusMined && res.Status != ethtxtypes.MonitoredTxStatusSafe && res.Status != ethtxtypes.MonitoredTxStatusFinalized && res.Status != ethtxtypes.MonitoredTxStatusFailed
